@@ -34,7 +34,7 @@ def replay_values(rec, ctx, np, P):
     fam, n = e['fam'], e['n']
     xs = np.array([float(p) for p in e['pts']])
     want = np.array([float(v) for v in e['vals']])
-    scale = 1 + float(np.abs(want).max())
+    scale = 1 + float(core.maxabs(want))
     tol = 2e-10 * scale * (1 + n)
     fails = []
     par = '' if fam not in ('jacobi', 'laguerre', 'dickson1', 'dickson2') else '[%s,%s]' % (e['a'], e['b']) if fam == 'jacobi' else '[%s]' % e['a']
@@ -49,7 +49,7 @@ def replay_values(rec, ctx, np, P):
                     for norm in (True, False):
                         got = P.zernike_nm(n, sgn * m, xs.copy(), t, norm=norm)
                         w = want * az * (math.sqrt(norm2) if norm else 1.0)
-                        if np.abs(got - w).max() > tol * (math.sqrt(norm2) if norm else 1):
+                        if core.maxabs(got - w) > tol * (math.sqrt(norm2) if norm else 1):
                             fails.append(('zernike_nm:%s%s' % ('norm' if norm else 'value', ':m=0' if m == 0 else (':cos' if sgn > 0 else ':sin')),
                                           'n=%d m=%d theta=%g norm=%s: got %s want %s' % (n, sgn * m, th, norm, np.round(got, 9).tolist(), np.round(w, 9).tolist())))
                             break
@@ -64,7 +64,7 @@ def replay_values(rec, ctx, np, P):
             for m2 in (0, 1, 3):
                 wy = ys ** m2
                 got = P.xy(n, m2, xs.copy(), ys.copy(), cartesian_grid=False)
-                if np.abs(got - want * wy).max() > tol * (1 + np.abs(wy).max()):
+                if core.maxabs(got - want * wy) > tol * (1 + core.maxabs(wy)):
                     fails.append(('xy', 'xy(%d,%d): got %s want %s' % (n, m2, np.round(got, 9).tolist(), np.round(want * wy, 9).tolist())))
             for a_ in (0, 2, -3):
                 th = 0.37
@@ -72,7 +72,7 @@ def replay_values(rec, ctx, np, P):
                 H = 0.75
                 got = P.hopkins(a_, n, 2, np.abs(xs), np.full_like(xs, th), H)
                 w = az * np.abs(want) * H ** 2
-                if np.abs(got - w).max() > tol:
+                if core.maxabs(got - w) > tol:
                     fails.append(('hopkins', 'hopkins(%d,%d,2): got %s want %s' % (a_, n, np.round(got, 9).tolist(), np.round(w, 9).tolist())))
         else:
             forms = [('1-D', xs.copy()), ('2-D', np.stack([xs, xs[::-1]])), ('0-D', np.array(xs[1])), ('scalar', float(xs[1]))]
@@ -85,7 +85,7 @@ def replay_values(rec, ctx, np, P):
                     else:
                         fails.append(('%s:shape:%s' % (fam, form), 'n=%d: result shape %s for input shape %s' % (n, got.shape, np.shape(x))))
                         continue
-                if np.abs(got - w).max() > tol:
+                if core.maxabs(got - w) > tol:
                     fails.append(('%s:value:%s' % (fam, PL.order_cls(n)), '%s%s n=%d %s: got %s want %s' % (fam, par, n, form, np.round(np.ravel(got), 9).tolist()[:6], np.round(np.ravel(w), 9).tolist()[:6])))
                     break
     except Exception as ex:
